@@ -34,6 +34,40 @@ use crate::RunCfg;
 pub const ASSUME_CHAIN: &str = "chain = cw-multi-test 2.4 (message routing, sub-message/reply semantics, transactional rollback, bank) + the harness's token-factory model; contracts run natively, not as wasm; a Rust panic stands in for a wasm trap";
 pub const ASSUME_BOUNDS: &str = "verdict covers only the executions produced by this run (seeded workload, finite histories)";
 
+/// Optional: every `every` steps the next three generated operations are executed in all six
+/// orders from one snapshot and a stateless quiescent invariant is evaluated after each of them
+/// (explicit exploration of interleavings of different users' messages).
+pub struct PermCfg {
+    pub every: usize,
+    pub check: fn(&mut World, &mut Reporter, &str),
+}
+pub static PERM: std::sync::OnceLock<PermCfg> = std::sync::OnceLock::new();
+
+const ORDERS: [[usize; 3]; 6] = [[0, 1, 2], [0, 2, 1], [1, 0, 2], [1, 2, 0], [2, 0, 1], [2, 1, 0]];
+
+fn permute_group(w: &mut World, group: &[crate::ops::Op], rep: &mut Reporter) {
+    let cfg = match PERM.get() {
+        Some(c) => c,
+        None => return,
+    };
+    let base = w.snapshot();
+    let mut ends = std::collections::HashSet::new();
+    for ord in ORDERS.iter() {
+        w.restore(&base);
+        let mut oks = vec![];
+        for k in ord {
+            let out = w.apply(&group[*k]);
+            oks.push(out.is_ok());
+            (cfg.check)(w, rep, &format!("order {:?} of [{}]", ord, group.iter().map(|o| o.kind()).collect::<Vec<_>>().join(", ")));
+        }
+        ends.insert(hash_of(&w.state().data));
+        rep.gcount("interleavings_executed");
+    }
+    rep.gadd("interleaving_groups", 1);
+    rep.gadd("interleaving_distinct_end_states", ends.len() as u64);
+    w.restore(&base);
+}
+
 /// One shard of the W-pool workload with the given monitors.
 pub fn pool_shard(
     cfg: &RunCfg,
@@ -55,12 +89,25 @@ pub fn pool_shard(
     }
     let mut obs = observe(&w);
     let mut fobs = crate::wfarm::fobserve(&w);
-    for i in 0..n_ops {
-        let op = gen.next(&w, &obs);
-        drive_one(&mut w, &op, i, &mut obs, &mut fobs, &mut monitors, &mut rep);
-        rep.transitions += 1;
-        if i % 4 == 0 {
-            rep.states.insert(hash_of(&w.state().data));
+    let mut i = 0;
+    while i < n_ops {
+        let mut group = vec![gen.next(&w, &obs)];
+        if let Some(pc) = PERM.get() {
+            if i % pc.every == pc.every - 1 && gen.script.is_empty() {
+                group.push(gen.next(&w, &obs));
+                group.push(gen.next(&w, &obs));
+                if gen.script.is_empty() {
+                    permute_group(&mut w, &group, &mut rep);
+                }
+            }
+        }
+        for op in &group {
+            drive_one(&mut w, op, i, &mut obs, &mut fobs, &mut monitors, &mut rep);
+            rep.transitions += 1;
+            if i % 4 == 0 {
+                rep.states.insert(hash_of(&w.state().data));
+            }
+            i += 1;
         }
     }
     for m in monitors.iter_mut() {
@@ -94,12 +141,25 @@ pub fn farm_shard(
     }
     let mut obs = observe(&w);
     let mut fobs = crate::wfarm::fobserve(&w);
-    for i in 0..n_ops {
-        let op = gen.next(&w, &obs, &fobs);
-        drive_one(&mut w, &op, i, &mut obs, &mut fobs, &mut monitors, &mut rep);
-        rep.transitions += 1;
-        if i % 4 == 0 {
-            rep.states.insert(hash_of(&w.state().data));
+    let mut i = 0;
+    while i < n_ops {
+        let mut group = vec![gen.next(&w, &obs, &fobs)];
+        if let Some(pc) = PERM.get() {
+            if i % pc.every == pc.every - 1 && gen.script.is_empty() {
+                group.push(gen.next(&w, &obs, &fobs));
+                group.push(gen.next(&w, &obs, &fobs));
+                if gen.script.is_empty() {
+                    permute_group(&mut w, &group, &mut rep);
+                }
+            }
+        }
+        for op in &group {
+            drive_one(&mut w, op, i, &mut obs, &mut fobs, &mut monitors, &mut rep);
+            rep.transitions += 1;
+            if i % 4 == 0 {
+                rep.states.insert(hash_of(&w.state().data));
+            }
+            i += 1;
         }
     }
     for m in monitors.iter_mut() {
@@ -113,7 +173,72 @@ fn fin(mut rep: Reporter, cfg: &RunCfg, level: &str, rule: &str, assumptions: &[
     rep.finish(&cfg.tier, cfg.seed, level, rule, assumptions, t0.elapsed().as_secs_f64(), extra)
 }
 
+fn perm_c01(w: &mut World, rep: &mut Reporter, ctx: &str) {
+    // the stateless core of C01: real balance >= sum of reported reserves, for every token
+    let o = observe(w);
+    let mut need: std::collections::BTreeMap<String, u128> = Default::default();
+    for p in o.pools.values() {
+        for c in &p.info.assets {
+            *need.entry(c.denom.clone()).or_default() += c.amount.u128();
+        }
+    }
+    let bad: Vec<String> = need.iter().filter(|(d, n)| o.bal(&w.pm, d) < **n).map(|(d, n)| format!("{d}: balance {} < reserves {n}", o.bal(&w.pm, d))).collect();
+    if bad.is_empty() {
+        rep.held("interleavings", hash_of(&ctx), || json!({"ctx": ctx, "denoms": need.len()}));
+    } else {
+        rep.failed("interleavings", None, format!("{ctx}: {}", bad.join("; ")), crate::ops::witness(json!({"order": ctx})));
+    }
+}
+
+fn perm_c05(w: &mut World, rep: &mut Reporter, ctx: &str) {
+    let f = crate::wfarm::fobserve(w);
+    let need = c05::needed(&f);
+    let bad: Vec<String> = need.iter().filter(|(d, n)| w.balance(&w.fm, d) < **n).map(|(d, n)| format!("{d}: balance {} < positions + unclaimed {n}", w.balance(&w.fm, d))).collect();
+    if bad.is_empty() {
+        rep.held("interleavings", hash_of(&ctx), || json!({"ctx": ctx, "denoms": need.len()}));
+    } else {
+        rep.failed("interleavings", None, format!("{ctx}: {}", bad.join("; ")), crate::ops::witness(json!({"order": ctx})));
+    }
+}
+
+fn perm_c10(w: &mut World, rep: &mut Reporter, ctx: &str) {
+    let f = crate::wfarm::fobserve(w);
+    let fm_addr = w.fm.to_string();
+    let cur = match f.epoch {
+        Some(c) => c,
+        None => return,
+    };
+    let lps: std::collections::BTreeSet<String> = f.weights.keys().map(|(_, d)| d.clone()).collect();
+    let mut bad = vec![];
+    for lp in &lps {
+        for e in [cur, cur + 1] {
+            let total = crate::farmobs::weight_at(f.weights.get(&(fm_addr.clone(), lp.clone())), e);
+            let sum: u128 = f.weights.iter().filter(|((a, d), _)| d == lp && *a != fm_addr).map(|(_, h)| crate::farmobs::weight_at(Some(h), e)).sum();
+            if total < sum {
+                bad.push(format!("{lp} epoch {e}: total {total} < sum of users {sum}"));
+            }
+        }
+    }
+    if bad.is_empty() {
+        rep.held("interleavings", hash_of(&ctx), || json!({"ctx": ctx, "lp_tokens": lps.len()}));
+    } else {
+        rep.failed("interleavings", None, format!("{ctx}: {}", bad.join("; ")), crate::ops::witness(json!({"order": ctx})));
+    }
+}
+
 pub fn run(cfg: &RunCfg, t0: Instant) -> i32 {
+    match cfg.property.as_str() {
+        "C01" => {
+            let _ = PERM.set(PermCfg { every: 20, check: perm_c01 });
+        }
+        "C05" => {
+            let _ = PERM.set(PermCfg { every: 20, check: perm_c05 });
+        }
+        "C10" => {
+            let _ = PERM.set(PermCfg { every: 20, check: perm_c10 });
+        }
+        _ => {}
+    }
     match cfg.property.as_str() {
         "C01" => {
             let shards = cfg.pick(2, 32);
@@ -125,7 +250,7 @@ pub fn run(cfg: &RunCfg, t0: Instant) -> i32 {
             rep.floor("backing", 1_000);
             rep.floor("lp_held", 100);
             fin(rep, cfg, "exploration",
-                "W-pool: seeded random interleaving of 7 accounts' messages (swaps, routes, deposits of every shape, single-asset and locked deposits, withdrawals, pool creations, donations, config changes, malformed messages) over 6+ pools sharing denoms; the backing identity is evaluated after every message; distinct = (message kind, outcome, #pools, max pools sharing a denom)",
+                "W-pool: seeded random interleaving of 7 accounts' messages (swaps, routes, deposits of every shape, single-asset and locked deposits, withdrawals, pool creations, donations, config changes, malformed messages) over 6+ pools sharing denoms; the backing identity is evaluated after every message; every 20th step the next three generated messages are executed in all 6 orders from one snapshot and balance >= sum of reserves is evaluated after each (counters interleaving_*); distinct = (message kind, outcome, #pools, max pools sharing a denom)",
                 &[ASSUME_CHAIN, ASSUME_BOUNDS],
                 t0,
                 json!({"shards": shards, "ops_per_shard": n}),
@@ -336,7 +461,7 @@ pub fn run(cfg: &RunCfg, t0: Instant) -> i32 {
             rep.floor("custody", 2_000);
             rep.floor("drain_everything", 30);
             fin(rep, cfg, "exploration",
-                "W-farm: seeded interleaving of 7 accounts' farm create/expand/close, position create/expand/close (full, partial)/withdraw/emergency withdraw, claims with and without until_epoch, locked deposits through the pool manager, config changes, donations and time advances (seconds around epoch boundaries and unlock instants, whole epochs, jumps past farm expiry); rewards are paid in plain tokens, in another pool's LP token and in the locked LP token itself; after every message balance(farm manager, d) >= sum of positions + sum of (funded - claimed) over live farms (positions/farms decoded completely from raw storage); every 60th step a fork drains everything in random order; distinct = (message kind, outcome, #positions, #farms, LP-reward present)",
+                "W-farm: seeded interleaving of 7 accounts' farm create/expand/close, position create/expand/close (full, partial)/withdraw/emergency withdraw, claims with and without until_epoch, locked deposits through the pool manager, config changes, donations and time advances (seconds around epoch boundaries and unlock instants, whole epochs, jumps past farm expiry); rewards are paid in plain tokens, in another pool's LP token and in the locked LP token itself; after every message balance(farm manager, d) >= sum of positions + sum of (funded - claimed) over live farms (positions/farms decoded completely from raw storage); every 60th step a fork drains everything in random order; every 20th step the next three generated messages are executed in all 6 orders from one snapshot with the custody inequality evaluated after each (counters interleaving_*); distinct = (message kind, outcome, #positions, #farms, LP-reward present)",
                 &[ASSUME_CHAIN, ASSUME_BOUNDS],
                 t0,
                 json!({"shards": shards, "ops_per_shard": n}),
@@ -353,7 +478,7 @@ pub fn run(cfg: &RunCfg, t0: Instant) -> i32 {
             rep.floor("curve", 150);
             rep.floor("takes_effect_next_epoch", 300);
             fin(rep, cfg, "exploration",
-                "W-farm (position-heavy mix: amounts 1 unit..1e20 incl. amounts whose fractional multiplier rounds, durations 1 day..1 year incl. the three anchors, pieces, partial closes, emergency exits): after every message, for every LP token and for the running and the pending epoch, the weight in effect (latest snapshot at or before the epoch, all snapshots decoded from raw storage) of the contract must be >= the sum over all users, equal while no pieces were involved; users without open positions have no weight; every fresh single-position weight is compared with the exact rational Lagrange curve (slack 1 + amount*1e-16), bounds [1x,16x] and pairwise monotonicity over everything seen; forked sweeps vary one argument at a time; distinct = (LP, epoch kind, #users, message kind) / (magnitude, duration bucket)",
+                "W-farm (position-heavy mix: amounts 1 unit..1e20 incl. amounts whose fractional multiplier rounds, durations 1 day..1 year incl. the three anchors, pieces, partial closes, emergency exits): after every message, for every LP token and for the running and the pending epoch, the weight in effect (latest snapshot at or before the epoch, all snapshots decoded from raw storage) of the contract must be >= the sum over all users, equal while no pieces were involved; users without open positions have no weight; every fresh single-position weight is compared with the exact rational Lagrange curve (slack 1 + amount*1e-16), bounds [1x,16x] and pairwise monotonicity over everything seen; forked sweeps vary one argument at a time; every 20th step the next three generated messages are executed in all 6 orders from one snapshot with total >= sum evaluated after each; distinct = (LP, epoch kind, #users, message kind) / (magnitude, duration bucket)",
                 &[ASSUME_CHAIN, ASSUME_BOUNDS],
                 t0,
                 json!({"shards": shards, "ops_per_shard": n}),
